@@ -257,6 +257,25 @@ CHECKS = {
 NOT_BUILT = "check not built yet in this working session (planned; DESIGN.md section 4)"
 
 
+# additions to the level text made after the CHECKS table was written (seeded round 4): histories / secondary entry points
+EXTRA = {
+    "C01": " The exported right-hand side is called repeatedly on the same function object at several states.",
+    "C02": " Script unit systems are drawn, and engine objects are re-used after a run on another network.",
+    "C03": " apply_reaction is called again after an in-place edit of one flag; whole-cell reservoirs as diffusion sources.",
+    "C04": " make_dxdtf on one-cell systems is asked in two drawn unit systems on both renderings.",
+    "C06": " Unit-system objects re-assigned through their setters after having served in a conversion are covered by facet 'reassigned'.",
+    "C07": " Facet birth_death covers zero-order production into empty cells (both engines, both space types).",
+    "C09": " One script in three is edited into its final form through the RDScript setters after having been read.",
+    "C11": " The result buffers allocated by the Python glue are ASan-tracked (PYTHONMALLOC=malloc); histories include output ; sample ; output.",
+    "C13": " Volumes edited through the space's setters before regeneration.",
+    "C15": " The tau-leap and Gillespie algorithms are walked over the neighbour table too; the relation is re-checked on the same grid object after set_boundary_conditions.",
+    "C16": " simulate(cgmap=...) is run with every engine and initial-state processing mode (first sample obeys the mode; identity map = plain run).",
+    "C17": " A second lookup (same number, other unit) and a repeat of the first are made on the same trajectory object.",
+    "C18": " Texts are parsed again after the caller modified earlier results.",
+    "C20": " Two non-reference aliases of a field together.",
+}
+
+
 def main():
     props = [json.loads(l) for l in open(os.path.join(VERIF, "properties.jsonl"))]
     checks, na = [], []
@@ -264,6 +283,7 @@ def main():
         pid = p["id"]
         if pid in CHECKS and os.path.exists(os.path.join(VERIF, "props", pid.lower() + ".py")):
             tech, text, note = CHECKS[pid]
+            text = text + EXTRA.get(pid, "")
             checks.append({
                 "property_id": pid,
                 "quick_cmd": "./check %s --tier quick" % pid,
